@@ -52,6 +52,9 @@ type vProfile struct {
 	lateFirst   bool  // the late registrations come before the first Invoke (C06: right after the candidate)
 	allAccepted bool  // assume every registration is accepted
 	strictDecor bool  // assume every decorated single key has a constructor visible from the decorator's scope
+	asObj       bool  // As may be combined with result objects
+	errConcrete bool  // error results may be declared as a concrete error type
+	regScopes   []int // if set: the target scope of the i-th registration is fixed (needs scopesFirst with exactly that many scopes)
 	visErr      bool  // call Visualize(VisualizeError(err)) after every failed Invoke
 }
 
@@ -206,7 +209,7 @@ func (h *vHist) genFunc(kind int, tag string) *vFunc {
 				f.optName = vNames[verifNdInt(tag+".optname", h.p.names)]
 			}
 		}
-		if h.p.as && !anyObj && verifNdBool(tag+".as") {
+		if h.p.as && (!anyObj || h.p.asObj) && verifNdBool(tag+".as") {
 			f.optAs = 1 + verifNdInt(tag+".asn", 2)
 			for _, r := range f.results {
 				r.t = vAType
@@ -257,6 +260,12 @@ func (h *vHist) genFunc(kind int, tag string) *vFunc {
 			}
 			if h.p.errPos {
 				f.errFirst = verifNdBool(tag + ".errfirst")
+			}
+			if h.p.errConcrete && kind != vInvoked && verifNdBool(tag+".errconcrete") {
+				// the error result is declared as a concrete (non-pointer) error type;
+				// its zero value is a non-nil error, so the function always fails
+				f.errKind = 1
+				f.fault = [3]int{vFail, vFail, vFail}
 			}
 		}
 	}
@@ -355,6 +364,16 @@ func (h *vHist) checkEnter(w *vWorld, e *vExec) {
 			self = r
 		}
 		sup, found := w.resolve(scope, p.key(), self)
+		if !rc.isNil && found && sup.reg.f.kind == vDecor {
+			excl := vExcl(self, nil)
+			for found && sup.reg.f.kind == vDecor && w.buildingFor(sup.reg, r) {
+				if v := w.findVal(rc.ptr); v != nil && v.by.reg == sup.reg {
+					break
+				}
+				excl = append(excl, sup.reg)
+				sup, found = w.resolveX(scope, p.key(), excl)
+			}
+		}
 		if rc.isNil {
 			h.assert("C01.zero", p.optional && (!found || w.unavailable(sup.reg, nil)))
 			h.assert("C04.zero", p.optional && (!found || w.unavailable(sup.reg, nil)))
@@ -453,11 +472,32 @@ func (h *vHist) checkGroupArg(w *vWorld, e *vExec, p *vParam, rc vRecv, scope in
 	if e.reg.f.kind == vDecor {
 		self = e.reg
 	}
-	if d, ok := w.resolveDecor(scope, p.key(), self); ok {
+	excl := vExcl(self, nil)
+	d, ok := w.resolveDecorX(scope, p.key(), excl)
+	for ok && !w.allFrom(rc, d.reg) && w.buildingFor(d.reg, e.reg) {
+		// e.reg is a dependency of that decorator and is built while the decorator
+		// is on dig's stack: it sees what the decorator itself will see
+		excl = append(excl, d.reg)
+		d, ok = w.resolveDecorX(scope, p.key(), excl)
+	}
+	if ok {
 		// decorated group: every element is an output of that decorator
 		for _, el := range rc.list {
 			val := w.findVal(el.ptr)
 			h.assert("C12.sees", !el.isNil && val != nil && val.by.reg == d.reg)
+		}
+		// ... and it is the whole group that decorator returned (so the decorator
+		// has run before its consumer is called)
+		ex := d.reg.succeeded()
+		h.assert("C12.sees", ex != nil)
+		if ex != nil {
+			n := 0
+			for _, v := range ex.outs {
+				if v.res == d.res {
+					n++
+				}
+			}
+			h.assert("C12.sees", len(rc.list) == n)
 		}
 		verifWitness("decorated-group")
 		return
@@ -573,10 +613,13 @@ func (h *vHist) afterInvoke(w *vWorld, r *vReg, o vOutcome, cl *vClosure, before
 		h.assert("C07.one", len(failed) == 1)
 		switch fe.outcome {
 		case vFail:
-			h.assert("C07.cause", o.class == vcUser && o.uerr == fe.err)
-			h.assert("C13.root", o.class == vcUser && o.uerr == fe.err)
-			if o.err != nil {
+			h.assert("C07.cause", o.class == vcUser && o.uerr == fe.err && o.ucode == fe.code)
+			h.assert("C13.root", o.class == vcUser && o.uerr == fe.err && o.ucode == fe.code)
+			if o.err != nil && fe.err != nil {
 				h.assert("C13.is", errors.Is(o.err, fe.err))
+			}
+			if o.err != nil && fe.code {
+				h.assert("C13.is", errors.Is(o.err, vErrCode(0)))
 			}
 			if fe.reg == r {
 				h.assert("C13.invoke", o.err == error(fe.err))
@@ -770,6 +813,10 @@ func (h *vHist) genReg(ops []vOp, tag string) []vOp {
 	f := h.genFunc(kind, tag)
 	if h.p.distinct {
 		h.assumeDistinct(f)
+	}
+	if n := h.nRegsDrawn - 1; n < len(h.p.regScopes) {
+		verifAssume(h.p.regScopes[n] < h.nScopes)
+		return append(ops, vOp{kind: opReg, f: f, scope: h.p.regScopes[n], tag: tag})
 	}
 	return append(ops, vOp{kind: opReg, f: f, scope: h.genScopeIdx(tag), tag: tag})
 }
